@@ -171,7 +171,7 @@ def cause_of(ev, p, q, kind, detail=None):
                 parts.append("source-has-shared-nodes")
         except Exception:
             pass
-    if op == "bind_expr" and spec and spec["p"] and spec["p"][-1][0] == "args":
+    if op in ("bind_expr", "bind_config") and spec and spec["p"] and spec["p"][-1][0] == "args":
         parts.append("binds-call-argument")
     if op in ("write_config", "bind_config", "delete_config") and spec:
         if _enclosing_loop(p_ir, {"p": list(spec["p"]) + [["x", 0]]}) is not None:
